@@ -1,4 +1,5 @@
 """C06 - MATLAB overload guards, default expansion and C++ marshalling line up (Engines E, I, F)."""
+from .. import rules_flow as RF
 from .. import rules_matlab as RM
 
 ID = "C06"
@@ -30,3 +31,4 @@ def run(ctx, rep):
     rep.run(RM.rule_group_by_name, ctx, rep, "M5")
     rep.run(RM.rule_return_shapes, ctx, rep, "M6")
     rep.run(RM.rule_marshalling_table, ctx, rep, "M7")
+    rep.run(RF.rule_memo_key_complete, ctx, rep, "M8", packages=("gtwrap/matlab_wrapper",), min_functions=50)
